@@ -212,6 +212,31 @@ func runPFaultCase(c *Case, env *Env) *Result {
 			res.Fail = &Fail{Prop: "C12", Oracle: "persist-fault", Kind: "silent-success", Site: writerSite(pc), Detail: fmt.Sprintf("%s: the writer accepted only %d of %d bytes and failed from then on, yet WriteTo returned n=%d, err=nil", desc, k, L, o.ret)}
 			return res
 		}
+		// a failed persist must leave the segment as it was: persisting it
+		// again to a healthy writer reproduces the file (sampled offsets)
+		if k%(L/12+1) == 0 || k == L-1 {
+			if pc.Merge == nil {
+				// the same on a fresh object whose very first WriteTo is the failing one
+				if f := freshFailThenRewrite(w, target, k, B, desc, sched, res); f != nil {
+					res.Fail = f
+					return res
+				}
+			}
+			again := exec(nil, -1)
+			if again.pi != nil || again.err != nil {
+				res.Fail = apiFail("C15", "immutability", desc+" (healthy writer, after a failed attempt)", again.pi, again.err)
+				return res
+			}
+			if !bytes.Equal(again.buf, B) {
+				prop, oracle, site := "C15", "immutability", "persisted-bytes-after-failed-persist"
+				if pc.Merge == nil {
+					prop, oracle, site = "C11", "footer", "re-persist-after-failed-persist"
+				}
+				res.Fail = mismatch(prop, oracle, site, fmt.Sprintf("%s: after an attempt that failed at byte %d, writing again to a healthy writer produced %d bytes differing from the original file at offset %d of %d", desc, k, len(again.buf), firstDiff(again.buf, B), L))
+				return res
+			}
+			res.probe("healthy-rewrite-after-failed-write")
+		}
 	}
 	// ---- writer failing once (sampled offsets) ----
 	step := L/16 + 1
@@ -281,4 +306,51 @@ func writerSite(pc *PFaultCase) string {
 		return "Merger.WriteTo"
 	}
 	return "merge-unbuffered"
+}
+
+// freshFailThenRewrite: a fresh object of the target segment (rebuilt or
+// reloaded) whose FIRST WriteTo fails after k bytes must still persist the
+// complete, identical file afterwards.
+func freshFailThenRewrite(w *World, target *WSeg, k int, B []byte, desc string, sched *Sched, res *Result) *Fail {
+	var seg segment.Segment
+	var pi *PanicInfo
+	var err error
+	if target.Kind == model.Built && target.Def.Store == StoreBuilt {
+		docs := ExpandBatch(target.Def, target.Idx)
+		pi = Guard(func() {
+			seg, _, err = w.Impl.New(ToSegmentDocs(docs, w.DV, sched), model.NormFn(target.Def.Norm), target.Def.Mode)
+		})
+	} else {
+		store := target.Def.Store
+		if store != StoreFile {
+			store = StoreMem
+		}
+		seg, _, _, pi, err = LoadViewWith(w.Impl, target.Bytes, store, sched)
+	}
+	if pi != nil || err != nil {
+		return apiFail("C04", "world", "fresh object of the target segment", pi, err)
+	}
+	bad := NewSimWriter(sched)
+	bad.Fault = &WriteFault{After: k}
+	var werr error
+	if pi := Guard(func() { _, werr = seg.WriteTo(bad, nil) }); pi != nil {
+		return &Fail{Prop: "C12", Oracle: "persist-fault", Kind: "panic", Site: pi.Site, Detail: fmt.Sprintf("%s (fresh object): writer failing after %d bytes: panic: %s", desc, k, pi.Msg)}
+	}
+	if werr == nil {
+		return &Fail{Prop: "C12", Oracle: "persist-fault", Kind: "silent-success", Site: "Segment.WriteTo", Detail: fmt.Sprintf("%s (fresh object): the writer accepted only %d bytes, yet WriteTo returned nil", desc, k)}
+	}
+	good := NewSimWriter(sched)
+	var ret int64
+	if pi := Guard(func() { ret, werr = seg.WriteTo(good, nil) }); pi != nil || werr != nil {
+		return apiFail("C11", "footer", desc+" (healthy writer after a failed first WriteTo)", pi, werr)
+	}
+	res.SubRuns += 2
+	res.probe("first-write-fails-then-healthy-rewrite")
+	if f := checkFooter(good.Buf, ret, desc+" re-persist after a failed first WriteTo", len(target.Docs), MergeModeOrBuild(target)); f != nil {
+		return f
+	}
+	if !bytes.Equal(good.Buf, B) {
+		return mismatch("C11", "footer", "re-persist-after-failed-persist", fmt.Sprintf("%s: the first WriteTo of a fresh object failed at byte %d; the next WriteTo to a healthy writer produced %d bytes differing from the original file at offset %d of %d", desc, k, len(good.Buf), firstDiff(good.Buf, B), len(B)))
+	}
+	return nil
 }
